@@ -1,4 +1,5 @@
 import ZvbiModel.Xds.Model
+import ZvbiModel.Generated.XdsDecFlags
 /-!
 # `Dec`: complete model of the service decoder `xds_decoder` (src/caption.c 146-589), property C09,
 # clause "programme / network information equals the decoded content of the delivered packets"
@@ -40,24 +41,27 @@ def typeExt : Nat := 33
 def nameExt : Nat := 64
 def callExt : Nat := 40
 
-/-! ## three facts about the control flow of `xds_decoder` on the current tree
+/-! ## four facts about the control flow of `xds_decoder` / `flush_prog_info`
 
-`checks/C09.py` compares each with a pattern in src/caption.c on every run (`dec-quirk-flag`), so a
-repair of the code shows up as a failing check until the constant here is flipped; the model is
-written for both values. -/
+Read from the current text of src/caption.c by `translate/gen_xdsdec.py` on every run
+(`Generated/XdsDecFlags.lean`); the model is written for both values of each, so applying or reverting a
+repair needs no hand edit here.  A wrong flag shows up in the per-field correspondence run. -/
 
 /-- `case 7` sets all `pi->caption_language[]` to NULL *before* it compares them with the new values
     (so every packet naming a language counts as changed and is never announced by its repeat);
-    `false`: the new values are compared with the stored ones (fixes/C09-capsvc-never-announced.diff) -/
-def capLangClearedFirst : Bool := false
+    `false` (since 4badb39): the new values are compared with the stored ones -/
+def capLangClearedFirst : Bool := Gen.XdsDec.capLangClearedFirst
 /-- `flush_prog_info` copies `pi->aspect` into the event *before* `vbi_reset_prog_info`, so the ASPECT
     event announces the value that was just erased; `false`: it announces the value now stored -/
-def flushSendsOldAspect : Bool := true
+def flushSendsOldAspect : Bool := Gen.XdsDec.flushSendsOldAspect
+/-- `flush_prog_info` sends that ASPECT event whichever programme is flushed - also for the *future*
+    programme, which is not on screen (it has an aspect ratio of its own since 201beae);
+    `false`: only for the current programme (`!pi->future`; fixes/C09-flush-aspect.diff) -/
+def flushAspectAnyClass : Bool := Gen.XdsDec.flushAspectAnyClass
 /-- `case 9` compares with and stores into `vbi->prog_info[0].aspect` whatever the class is, so an
     aspect ratio packet of the *future* class changes the current programme (and sends ASPECT);
-    `false`: it uses `pi->aspect`, ASPECT and `aspect_source` only for the current class
-    (fixes/C09-future-aspect-overwrites-current.diff) -/
-def aspectAlwaysCurrent : Bool := false
+    `false` (since 201beae): it uses `pi->aspect`, ASPECT and `aspect_source` only for the current class -/
+def aspectAlwaysCurrent : Bool := Gen.XdsDec.aspectAlwaysCurrent
 
 /-! ## character arrays -/
 
@@ -168,12 +172,14 @@ def Info.setCyc (v : Info) (cls : Nat) (c : List Nat) : Info :=
 
 def errIf (b : Bool) (site : String) : Option String := if b then some site else none
 
-/-- `flush_prog_info`: the event carries the aspect ratio *as it was before* the reset
-    (`e->ev.aspect = pi->aspect` precedes `vbi_reset_prog_info`) -/
+/-- `flush_prog_info` (`pi->future` is the class): reset, ASPECT event if the reset changed the aspect
+    ratio - for which programme and with which value is what `flushAspectAnyClass` /
+    `flushSendsOldAspect` say - and `info_cycle[pi->future] = 0` -/
 def flush (v : Info) (cls : Nat) : Info × List Ev :=
   let pi := v.pi cls
   ((v.setPi cls pi.reset).setCyc cls [],
-   if pi.aspect != {} then [Ev.aspect (if flushSendsOldAspect then pi.aspect else {})] else [])
+   if pi.aspect != {} ∧ (flushAspectAnyClass ∨ cls = 0) then
+     [Ev.aspect (if flushSendsOldAspect then pi.aspect else {})] else [])
 
 /-- epilogue of the current/future branch -/
 def epilogue (v : Info) (cls typ : Nat) (neq : Bool) : Info × List Ev :=
